@@ -425,6 +425,71 @@ def r10_6(chk, tier):
             if len(kinds_moved) >= 2: chk.ok('R10.6', site, {'function': fn['q'], 'kinds_flattened': sorted(kinds_moved)})
             else: chk.fail('R10.6', site, fn['file'], fn['l'], 'flatten_and_destroy() moves children of %d container kind(s) to the work list, both array and object are needed' % len(kinds_moved), None, fn['q'])
 
+DEPTH_PAIRS = [('begin_array', 'end_array'), ('begin_object', 'end_object'), ('visit_begin_array', 'visit_end_array'),
+               ('visit_begin_object', 'visit_end_object')]
+
+def r10_7(chk, tier):
+    """Depth counter balance: what an open adds to the nesting counter the matching close takes off again."""
+    chk.rule('R10.7', 'depth counter balance: in every parser/encoder class whose container open increments a depth/level counter, the matching '
+                      'close decrements the same counter exactly once on every path that does not store an error (otherwise sibling containers '
+                      'accumulate depth and a flat document is rejected, or the limit stops counting)', floor=30)
+    n = 0
+    for unit in ('core', 'cbor', 'msgpack', 'ubjson', 'bson', 'csv'):
+        facts = F.load([unit], tier)
+        if unit not in chk.units: chk.units.append(unit)
+        classes = {}
+        for f in facts.functions:
+            if f.get('body') is None or f.get('dep') or not f.get('cls'): continue
+            classes.setdefault(f['cls'], {}).setdefault(f['n'], []).append(f)
+        def counters(fns, op):
+            out = set()
+            for f in fns:
+                for x in A.walk_no_lambda(f['body']):
+                    if x.get('k') == 'UnaryOperator' and x.get('op') == op:
+                        s2 = A.strip(x.get('sub'), casts=True)
+                        if s2 is not None and s2.get('k') == 'MemberExpr' and ('depth' in s2.get('n', '') or 'level' in s2.get('n', '')): out.add(s2['n'])
+            return out
+        for cls, fns in sorted(classes.items()):
+            short = A.strip_targs(cls).split('::')[-1]
+            for b, e in DEPTH_PAIRS:
+                if b not in fns or e not in fns: continue
+                incs = counters(fns[b], '++'); decs = counters(fns[e], '--')
+                if not incs and not decs: continue
+                # only counters that are compared with the nesting limit somewhere in the class
+                limited = set()
+                for fl in fns.values():
+                    for f2 in fl:
+                        for x in A.walk_no_lambda(f2['body']):
+                            if x.get('k') == 'BinaryOperator' and x.get('op') in ('<', '<=', '>', '>=') and 'max_nesting_depth' in A.text(x):
+                                for y in A.walk(x):
+                                    if y.get('k') == 'MemberExpr' and y.get('n') in (incs | decs): limited.add(y['n'])
+                for ctr in sorted((incs | decs) & limited):
+                    for f in U.one_per_inst(fns[e]):
+                        n += 1
+                        chk.analysed(f)
+                        site = U.site(f, '%s balance' % ctr)
+                        if ctr not in incs:
+                            chk.fail('R10.7', site, f['file'], f['l'], '%s::%s decrements %s but %s never increments it' % (short, e, ctr, b), None, f['q']); continue
+                        g = C.CFG(f['body'])
+                        dec_nodes = []; err_nodes = []
+                        for nd in g.rpo:
+                            if nd.kind not in ('stmt', 'cond', 'return') or not isinstance(nd.ast, dict): continue
+                            for x in A.walk_no_lambda(nd.ast):
+                                if x.get('k') == 'UnaryOperator' and x.get('op') == '--':
+                                    s2 = A.strip(x.get('sub'), casts=True)
+                                    if s2 is not None and s2.get('k') == 'MemberExpr' and s2.get('n') == ctr: dec_nodes.append(nd)
+                            am = U.assigned_member(nd.ast) if nd.kind == 'stmt' else None
+                            if am and am[0] == 'ec': err_nodes.append(nd)
+                        # `if (ec) return;` after a visitor call: the true outcome is an error path
+                        for nd in g.rpo:
+                            if nd.kind == 'edge' and nd.label is True and isinstance(nd.ast, dict) and G.comparison(nd.ast) is None and any(y.get('k') == 'DeclRefExpr' and y.get('n') == 'ec' for y in A.walk(nd.ast)): err_nodes.append(nd)
+                        missing = g.can_reach(g.entry, [g.exit_return], avoid=dec_nodes + err_nodes)
+                        twice = any(g.can_reach(s2, dec_nodes) for d in dec_nodes for s2 in d.succ)
+                        if not missing and not twice: chk.ok('R10.7', site, {'class': short, 'close': e, 'counter': ctr})
+                        elif missing: chk.fail('R10.7', site, f['file'], f['l'], '%s::%s can return normally without `--%s`, while %s increments it: every closed container leaves the depth one higher' % (short, e, ctr, b), None, f['q'])
+                        else: chk.fail('R10.7', site, f['file'], dec_nodes[0].line, '%s::%s decrements %s twice on one path' % (short, e, ctr), None, f['q'])
+    chk.require(n >= 30, 'R10.7: only %d open/close pairs with a depth counter found' % n)
+
 def run(chk, tier, only_rule=None):
     chk.explanation = EXPLANATION
     chk.not_decided = NOT_DECIDED
@@ -434,3 +499,4 @@ def run(chk, tier, only_rule=None):
     r10_4(chk, tier)
     r10_5(chk, tier)
     r10_6(chk, tier)
+    r10_7(chk, tier)
